@@ -5,7 +5,7 @@
 From Coq Require Import List String NArith ZArith Bool.
 From SV Require Import Bin.LE Bin.Struct Bin.StructProofs Bin.RLE Bin.RLEProofs Bin.FindInsert Bin.FindInsertProofs
   Fmt.BspFormatsSpec Fmt.BspFormatsProofs Fmt.BspVisRow Fmt.BspVisRowProofs Fmt.BspTexStrings Fmt.BspTexStringsProofs
-  Fmt.BspRecords Fmt.BspRecordsProofs Fmt.VmfText Fmt.BspEntLump Fmt.BspEntLumpProofs.
+  Fmt.BspRecords Fmt.BspRecordsProofs Fmt.VmfText Fmt.BspEntLump Fmt.BspEntLumpProofs Fmt.BspDedup Fmt.BspDedupProofs Fmt.BspFlagSplit Fmt.BspFlagSplitProofs.
 Import ListNotations.
 
 (** * struct: unpack inverts pack for every format and every fitting record *)
@@ -156,3 +156,59 @@ Theorem c11_find_or_extend_unbounded_refuted :
   let '(keys', is) := fe_run false [] [[1; 2]; [2; 3]]%N in
   keys' = [1; 2]%N /\ is = [0; 1]%nat /\ slice keys' 1 2 = [2]%N.
 Proof. exact fe_unbounded_refuted. Qed.
+
+(** * De-duplicating index tables with their key functions (find_or_insert(table, key), the texdata dict of the texinfo writer)
+    The table for an arbitrary item type and key: if equal keys imply that the stored item stands for the requested one
+    (any reflexive relation [R]), every request -- for every initial table and every sequence of requests -- is answered by
+    an index that holds such an item, and the initial table is kept as a prefix. *)
+Theorem c11_dedup_table_sound : forall (A K : Type) (key : A -> K) (keq : K -> K -> bool) (R : A -> A -> Prop),
+  (forall a b, keq a b = true <-> a = b) -> (forall x, R x x) ->
+  forall l xs, (forall x y, In x (l ++ xs) -> In y (l ++ xs) -> key y = key x -> R y x) ->
+  forall s' is, dd_run key keq (dd_init key l) xs = (s', is) ->
+  Forall2 (fun x i => exists y, nth_error (fst s') i = Some y /\ R y x) xs is /\ exists ext, fst s' = l ++ ext.
+Proof. exact dedup_table_sound. Qed.
+(** Generic over the key read from the source: if the key passes [key_determines] for the attributes of the item class
+    (identity, whole value, or every attribute read untransformed or under a transformation that is injective on the values in
+    use), then for objects of that class -- identity determines the object, [tr ""] is no transformation -- the record read
+    back through the index handed out for an object is that object's record. *)
+Theorem c11_dedup_key_roundtrip : forall admitted fields k tr l xs,
+  key_determines admitted fields k = true ->
+  (forall v, tr ""%string v = v) ->
+  (forall o, In o (l ++ xs) -> map fst (snd o) = fields) ->
+  (forall o o', In o (l ++ xs) -> In o' (l ++ xs) -> fst o = fst o' -> o = o') ->
+  (forall t, In t admitted -> forall o o' f v v', In o (l ++ xs) -> In o' (l ++ xs) ->
+     assoc_f f (snd o) = Some v -> assoc_f f (snd o') = Some v' -> tr t v = tr t v' -> v = v') ->
+  forall s' is, dd_run (key_sem tr k) keyval_eqb (dd_init (key_sem tr k) l) xs = (s', is) ->
+  Forall2 (fun o i => read_back (fst s') i = Some (snd o)) xs is /\ exists ext, fst s' = l ++ ext.
+Proof. exact dedup_key_roundtrip. Qed.
+(** A key that reads only the material name fails [key_determines] (also when casefold is admitted: the other attributes are
+    not read); two records with one name and different sizes then share index 0 and the second is read back with the size of
+    the first.  With the identity key each gets its own record and a repeated object its old index. *)
+Theorem c11_dedup_key_by_name_refuted :
+  key_determines [] td_fields (KFields [("mat", "casefold")])%string = false /\
+  key_determines ["casefold"%string] td_fields (KFields [("mat", "casefold")])%string = false /\
+  (let '(s, is) := dd_run (key_sem (fun _ v => v) (KFields [("mat", "casefold")]%string)) keyval_eqb
+                          (dd_init (key_sem (fun _ v => v) (KFields [("mat", "casefold")]%string)) []) [td_a; td_b] in
+   is = [0; 0]%nat /\ read_back (fst s) 0 = Some (snd td_a) /\ snd td_a <> snd td_b) /\
+  (let '(s, is) := dd_run (key_sem (fun _ v => v) KIdentity) keyval_eqb
+                          (dd_init (key_sem (fun _ v => v) KIdentity) []) [td_a; td_b; td_a] in
+   is = [0; 1; 0]%nat /\ read_back (fst s) 1 = Some (snd td_b)) /\
+  key_determines [] td_fields KIdentity = true /\
+  key_determines [] td_fields (KFields [("width", ""); ("mat", "")])%string = true.
+Proof. exact dedup_key_by_name_refuted. Qed.
+
+(** * Helper properties that split one integer over several fields (StaticPropFlags.value_prim / value_sec)
+    Generic over the parts (shift, optional mask) read from the writer's helper properties and the shifts read from the
+    reader: if they pass [split_ok] (sorted parts tile the bits: every masked part reaches exactly to the next one, the last
+    is unmasked; reader shifts = writer shifts), EVERY value is put together again from the stored parts.  (That the last,
+    unmasked part fits its field is struct's range check: c11_pack_rejects.) *)
+Theorem c11_flag_split_roundtrip : forall parts shifts, split_ok parts shifts = true ->
+  forall v, split_read (split_write v parts) shifts = v.
+Proof. exact split_roundtrip. Qed.
+(** The secondary part masked to one byte fails [split_ok]; 0x10001 is read back as 1. *)
+Theorem c11_flag_split_masked_high_part_refuted :
+  split_ok [(0, Some 255); (8, Some 255)]%N [0; 8]%N = false /\
+  split_read (split_write 65537 [(0, Some 255); (8, Some 255)]%N) [0; 8]%N = 1%N /\
+  split_ok [(0, Some 255); (8, None)]%N [0; 8]%N = true /\
+  split_read (split_write 65537 [(0, Some 255); (8, None)]%N) [0; 8]%N = 65537%N.
+Proof. exact split_masked_high_part_refuted. Qed.
